@@ -10,7 +10,8 @@ are expanded), classified:
   source    taking the next client: `listener.accept()`, `endpoint.accept()`, `conn.accept_bi()`, `recv_from`, `recv_msg`
   peer      waits for bytes or handshake progress of ONE client or upstream: a TLS `acceptor.accept(socket)`, a bare
             `<future>.await` (e.g. quinn's `Connecting`), reads / writes / handshakes on a stream, connects, sleeps
-  squeue    a blocking send into a bounded per-session queue (its consumer is that session's relay)
+  squeue    a blocking `.send(..).await` into a bounded queue whose consumer is one session's relay (that relay
+            does not read while its upstream is being dialled or is stalled): waits for that one peer as well
   local     everything else (in-memory bookkeeping, creating / enqueueing the context)
 
 Textual (brace / parenthesis level) analysis.
@@ -26,7 +27,9 @@ PEER = re.compile(
     r"\.accept\(\s*[^)\s]|read_from|write_to|write_with_body|read_u8|read_u16|read_u32|read_exact|read_line|read_until|read_to_end|"
     r"\.connect\(|lookup_host|h11c_handshake|h11c_connect|handshake\(|sleep\(|resolve\(|\.flush\(|write_all|open_bi|timeout\(|\.tick\(|"
     r"copy_bidi|on_connect\(|on_error\(|\.check\(")
-SQUEUE = re.compile(r"\b(tx|sender|session_tx)\s*\.\s*send\(")
+SQUEUE = re.compile(r"\.\s*send\(")
+COMMON = {"write", "read", "new", "lock", "get", "get_mut", "insert", "remove", "send", "recv", "clone", "shutdown", "accept", "listen",
+          "init", "name", "from_value", "connect", "bind", "flush", "next", "await", "unwrap", "context", "enqueue", "create_context"}
 BARE = re.compile(r"(^|[\s(=])(\w+)\s*\.await\s*$")
 
 
@@ -102,6 +105,11 @@ def expand(src, fns, text, depth, seen):
         for m2 in re.finditer(r"\b(?:self|this|Self)(?:\s*\.\s*clone\(\))?\s*(?:\.|::)\s*(\w+)\s*\(", expr):
             if m2.group(1) in fns:
                 m = m2
+        if m is None:
+            # a method of another same-file type (`session.add_frame(..)`), unless its name is too common to attribute
+            for m2 in re.finditer(r"\.\s*(\w+)\s*\(", expr):
+                if m2.group(1) in fns and m2.group(1) not in COMMON:
+                    m = m2
         if m and m.group(1) in fns and depth < 4 and m.group(1) not in seen and classify(expr) == "local":
             b, e = fns[m.group(1)]
             sub = expand(src, fns, src[b:e + 1], depth + 1, seen | {m.group(1)})
